@@ -60,7 +60,7 @@ CHECKS = {
             cfg(name='kinds', Depth=3, SeedIds=[0, 5], Kinds=['V', 'HE', 'M'], Types=['int', 'bool'], Names=['', 'a'],
                 Ops1=ALL14, Ops2=ALL14, OpsN=ALL14 + ['teardown']),
             cfg(name='lifetimes', Depth=5, SeedIds=[1, 2, 3, 4], Kinds=['V'], Types=['int'], Names=['a'], Overwrite=True, NM=3, NS=9,
-                Ops1=LIFE, Ops2=LIFE, OpsN=['h_drop', 'mesh_destroy', 'clear', 'h_copy', 'mesh_assign', 'mesh_copy', 'teardown']),
+                Ops1=LIFE, Ops2=LIFE, OpsN=['h_drop', 'mesh_destroy', 'clear', 'mesh_assign', 'teardown']),
         ],
         sim=dict(ops=ALL14, SeedIds=[0, 1, 2, 3, 4, 5, 6], NM=3, NS=10, NH=4, Kinds=['V', 'HE', 'M'], Types=['int', 'bool'],
                  Names=['', 'a', 'b'], MTypes=['poly', 'tet', 'hex'], MaxV=3, MaxE=2),
@@ -82,14 +82,14 @@ CHECKS = {
         ],
         thorough=[
             cfg(name='copy-then-mutate', NM=3, NS=12, NH=4, Depth=4, SeedIds=[10, 11, 12, 13, 14, 15, 16], Kinds=['V', 'HE'], Types=['int'], Names=['a'],
-                MTypes=['poly', 'tet', 'hex'], MaxV=5, MaxE=7, Ops1=COPY, Ops2=MUT13, OpsN=MUT13B),
+                MTypes=['poly', 'tet', 'hex'], MaxV=5, MaxE=7, Ops1=COPY, Ops2=MUT13, OpsN=MUT13C),
             cfg(name='copy-then-mutate-wide', NM=3, NS=12, NH=4, Depth=3, SeedIds=[10, 11, 12, 13, 14, 15, 16], Kinds=['V', 'HE', 'M'], Types=['int', 'bool'], Names=['a'],
                 MTypes=['poly', 'tet', 'hex'], MaxV=5, MaxE=7, Ops1=COPY, Ops2=MUT13, OpsN=MUT13),
             cfg(name='chains', NM=3, NS=12, NH=4, Depth=4, SeedIds=[10, 11, 12, 13, 14, 15], Kinds=['V'], Types=['int'], Names=['a'],
-                MTypes=['poly', 'tet'], MaxV=5, MaxE=7, Ops1=COPY + ['mesh_new'], Ops2=COPY, OpsN=COPY + MUT13B),
+                MTypes=['poly', 'tet'], MaxV=5, MaxE=7, Ops1=COPY + ['mesh_new'], Ops2=COPY, OpsN=['mesh_assign'] + MUT13C),
             cfg(name='persistent-positions', NM=3, NS=12, NH=4, Depth=4, SeedIds=[10, 11, 12, 15], Kinds=['V'], Types=['int'], Names=['a'],
                 MTypes=['poly'], MaxV=5, MaxE=7, Ops1=['persist_pos', 'clear', 'pos_handle'], Ops2=COPY + ['persist_pos', 'set_shared', 'set_name', 'pos_handle'],
-                OpsN=COPY + ['set_vertex', 'add_vertex', 'mesh_destroy', 'clear', 'persist_pos', 'write', 'h_drop']),
+                OpsN=['mesh_assign', 'set_vertex', 'add_vertex', 'mesh_destroy', 'persist_pos', 'write']),
         ],
         sim=dict(ops=COPY + COPY + MUT13 + ['mesh_new', 'h_move', 'clear_all_props', 'persist_pos'], SeedIds=[10, 11, 12, 13, 14, 15, 16], NM=3, NS=14, NH=4,
                  Kinds=['V', 'HE', 'M'], Types=['int', 'bool'], Names=['', 'a'], MTypes=['poly', 'tet', 'hex'], MaxV=6, MaxE=8),
